@@ -679,7 +679,26 @@ def concretise_str(st, s):
     return "".join(out)
 
 
+class PyRaises(Exception):
+    """An operator that raises a Python exception on every path reaching it (e.g. hashing a bytearray)."""
+
+    def __init__(self, cls, msg):
+        super().__init__(msg)
+        self.cls, self.msg = cls, msg
+
+
+def unhashable(v):
+    if isinstance(v, Ref):
+        raise EngineUnsupported("hashability of a heap object")
+    return (isinstance(v, SBytes) and v.mutable) or isinstance(v, (bytearray, list, dict, set))
+
+
 def contains(st, container, item):
+    if isinstance(container, (set, frozenset)):
+        # membership in a set hashes the probe first: an unhashable probe (bytearray, list) raises TypeError, whatever the set holds
+        if unhashable(item):
+            raise PyRaises(TypeError, f"unhashable type: '{'bytearray' if isinstance(item, (SBytes, bytearray)) else 'object'}'")
+        container = tuple(sorted(container, key=repr))
     if isinstance(container, (tuple, list)):
         res = False
         for x in container:
